@@ -1,0 +1,120 @@
+//go:build verif
+
+package lexer
+
+// Contracts for the verification machinery in /verif (comment-only file; compiled
+// only with -tags verif and adds no code).  Spec functions wfr, M come from
+// lexer/reader/verif_contracts.go.
+
+//@ spec N(lr) = 8*(len(lr.runes)-lr.pos) + 2*len(lr.history)
+//@ spec H0(lr) = len(lr.history) == 0
+//@ # history shape at Advance entry: empty, or the two runes pushed back by lexDigit
+//@ spec shapeA(lr) = len(lr.history) == 0 || (len(lr.history) == 2 && !lr.ungetFlg && lr.history[0] == '.' && !unicode.IsDigit(lr.history[1]))
+//@ # after skipSpace: empty, or one rune left behind a pending '.'
+//@ spec shapeS(lr) = len(lr.history) == 0 || (len(lr.history) == 1 && lr.ungetFlg && lr.char == '.' && !unicode.IsDigit(lr.history[0]))
+//@ spec wfA(l) = l != nil && wfr(l.reader) && shapeA(l.reader)
+//@ # a "peek": the last rune read is pushed back; nothing is lost relative to the entry measure
+//@ spec peeked(lr) = lr.ungetFlg && N(lr) + ite(lr.char != 0, 2, 0) <= old(M(lr))
+
+//@ func (*ti/lexer.Lexer).skipSpace
+//@   safe
+//@   terminates
+//@   requires wfA(l)
+//@   ensures wfr(l.reader) && sameInput(l.reader) && shapeS(l.reader) && peeked(l.reader)
+//@   ensures !unicode.IsSpace(l.reader.char) || l.reader.char == '\n'
+//@   loop 0 invariant wfr(l.reader) && sameInput(l.reader) && !l.reader.ungetFlg && l.reader.char == char
+//@   loop 0 invariant N(l.reader) + ite(l.reader.char != 0, 2, 0) <= old(M(l.reader))
+//@   loop 0 invariant len(l.reader.history) == 0 || (len(l.reader.history) == 1 && char == '.' && !unicode.IsDigit(l.reader.history[0]))
+//@   loop 0 decreases N(l.reader) + ite(l.reader.char != 0, 2, 0)
+
+//@ # ---- token-eating helpers: each ends by pushing back the rune that stopped it ("peeked") ----
+
+//@ func (*ti/lexer.Lexer).lexToSpaceTokenEat
+//@   safe
+//@   terminates
+//@   requires l != nil && wfr(l.reader) && H0(l.reader)
+//@   ensures wfr(l.reader) && sameInput(l.reader) && H0(l.reader) && peeked(l.reader)
+//@   loop 0 invariant wfr(l.reader) && sameInput(l.reader) && H0(l.reader) && M(l.reader) <= old(M(l.reader))
+//@   loop 0 decreases M(l.reader)
+
+//@ func (*ti/lexer.Lexer).lexToNotIdentifierTokenEat
+//@   safe
+//@   terminates
+//@   requires l != nil && wfr(l.reader) && H0(l.reader)
+//@   ensures wfr(l.reader) && sameInput(l.reader) && H0(l.reader) && peeked(l.reader)
+//@   loop 0 invariant wfr(l.reader) && sameInput(l.reader) && H0(l.reader) && M(l.reader) <= old(M(l.reader))
+//@   loop 0 decreases M(l.reader)
+
+//@ func (*ti/lexer.Lexer).lexHexDigits
+//@   safe
+//@   terminates
+//@   requires l != nil && wfr(l.reader) && H0(l.reader)
+//@   ensures wfr(l.reader) && sameInput(l.reader) && H0(l.reader) && peeked(l.reader)
+//@   loop 0 invariant wfr(l.reader) && sameInput(l.reader) && H0(l.reader) && M(l.reader) <= old(M(l.reader))
+//@   loop 0 decreases M(l.reader)
+
+//@ func (*ti/lexer.Lexer).skipLineComment
+//@   safe
+//@   terminates
+//@   requires l != nil && wfr(l.reader) && H0(l.reader)
+//@   ensures wfr(l.reader) && sameInput(l.reader) && H0(l.reader) && peeked(l.reader)
+//@   loop 0 invariant wfr(l.reader) && sameInput(l.reader) && H0(l.reader) && M(l.reader) <= old(M(l.reader))
+//@   loop 0 decreases M(l.reader)
+
+//@ func (*ti/lexer.Lexer).lexString
+//@   safe
+//@   terminates
+//@   requires l != nil && wfr(l.reader) && H0(l.reader)
+//@   ensures wfr(l.reader) && sameInput(l.reader) && H0(l.reader) && M(l.reader) <= old(M(l.reader))
+//@   ensures typeis(l.val, "string")
+//@   loop 0 invariant wfr(l.reader) && sameInput(l.reader) && H0(l.reader) && M(l.reader) <= old(M(l.reader))
+//@   loop 0 decreases M(l.reader)
+
+//@ # reserved words map to parser token kinds: every value stored in `reserved` is the rune NIL
+//@ spec reservedOK() = forall(k, "string", has(reserved, k) ==> typeis(reserved[k], "int32") && unboxint(reserved[k]) == base.NIL)
+
+//@ # ---- lexDigit: entered with a digit pushed back; consumes at least that digit ----
+//@ func (*ti/lexer.Lexer).lexDigit
+//@   safe
+//@   terminates
+//@   requires l != nil && wfr(l.reader) && H0(l.reader) && l.reader.ungetFlg && unicode.IsDigit(l.reader.char)
+//@   ensures wfr(l.reader) && sameInput(l.reader) && shapeA(l.reader) && M(l.reader) < old(M(l.reader))
+//@   ensures (l.tok == base.INT && typeis(l.val, "int64")) || (l.tok == base.FLOAT && typeis(l.val, "float64"))
+//@   loop 0 invariant wfr(l.reader) && sameInput(l.reader) && H0(l.reader)
+//@   loop 0 invariant ite(l.reader.ungetFlg, M(l.reader) == old(M(l.reader)) && unicode.IsDigit(l.reader.char), M(l.reader) <= old(M(l.reader)) - 2)
+//@   loop 0 decreases M(l.reader)
+
+//@ # ---- lexIdentifier: entered with an identifier rune pushed back; consumes at least that rune ----
+//@ func (*ti/lexer.Lexer).lexIdentifier
+//@   safe
+//@   terminates
+//@   requires l != nil && wfr(l.reader) && H0(l.reader) && l.reader.ungetFlg && l.reader.char != 0 && isIdentifierChar(l.reader.char)
+//@   requires reservedOK() && reserved != nil && tbl != nil
+//@   ensures wfr(l.reader) && sameInput(l.reader) && H0(l.reader) && M(l.reader) < old(M(l.reader))
+//@   ensures (l.tok == base.UNKNOWN || l.tok == base.NIL) && typeis(l.val, "ti/lexer.Identifier")
+//@   loop 0 invariant wfr(l.reader) && sameInput(l.reader) && H0(l.reader)
+//@   loop 0 invariant ite(l.reader.ungetFlg, M(l.reader) == old(M(l.reader)) && l.reader.char == old(l.reader.char), M(l.reader) <= old(M(l.reader)) - 2)
+//@   loop 0 decreases M(l.reader)
+//@   witness dec:loop0#0 "f x:\"abc"
+
+//@ # token kinds the parser has a case for (parser/read.go Read): this set is taken from the
+//@ # property ("each token the parser builds has a well-defined kind"), not from the lexer.
+//@ spec parserKind(k) = k == base.INT || k == base.FLOAT || k == base.STRING || k == base.NIL || k == base.UNKNOWN
+//@     || k == ';' || k == '^' || k == '+' || k == '-' || k == '/' || k == '*' || k == '>' || k == '<' || k == '(' || k == ')'
+//@     || k == ',' || k == '\n' || k == '{' || k == '}' || k == '[' || k == ']' || k == '!' || k == '|' || k == '=' || k == '.'
+//@ # the dynamic type of the token value matches the kind (parser.Read asserts these types)
+//@ spec valueMatches(l) = (l.tok == base.INT ==> typeis(l.val, "int64")) && (l.tok == base.FLOAT ==> typeis(l.val, "float64"))
+//@     && (l.tok == base.STRING ==> typeis(l.val, "string")) && (l.tok == base.UNKNOWN ==> typeis(l.val, "ti/lexer.Identifier"))
+
+//@ func (*ti/lexer.Lexer).Advance
+//@   safe
+//@   terminates
+//@   requires wfA(l) && reservedOK() && reserved != nil && tbl != nil
+//@   decreases M(l.reader)
+//@   ensures wfA(l) && sameInput(l.reader)
+//@   ensures[C02,C03] result ==> M(l.reader) < old(M(l.reader))
+//@   ensures[C02,C03] M(l.reader) <= old(M(l.reader)) + 1
+//@   ensures[C03] result ==> parserKind(l.tok)
+//@   ensures[C03] result ==> valueMatches(l)
+//@   ensures[C03] !result ==> l.reader.char == 0
+//@   ensures[C03] !result ==> l.reader.pos == len(l.reader.runes) && len(l.reader.history) == 0
